@@ -11,8 +11,11 @@
 
      rejar                  a session with other jar counts
      load_rejar             the filtered jar loads the same session up to rejar
-     *_rejar                every session operation of the ladder commutes with
-                            rejar, every reader ignores it
+     *_rejar                every session operation of the ladder maps sessions
+                            equal up to rejar to sessions equal up to rejar
+                            (Save moves the counts: after_save_rejar; so the
+                            counts are quantified per lemma, never fixed along
+                            a run), every reader ignores it
      cs_sim                 cookie lists equal up to deletion headers, which
                             all name chunk cookies
      *_sim                  each handler, run on rejar-related sessions, gives
@@ -136,46 +139,48 @@ Qed.
 
 Section Rejar.
   Variable nch : istr -> nat.
-  Variables a r : nat.
 
-  Lemma main_rejar sd : s_main (rejar a r sd) = s_main sd.
+  Lemma main_rejar a r sd : s_main (rejar a r sd) = s_main sd.
   Proof. reflexivity. Qed.
 
-  Lemma get_access_rejar sd : get_access nch (rejar a r sd) = get_access nch sd.
+  Lemma get_access_rejar a r sd : get_access nch (rejar a r sd) = get_access nch sd.
   Proof. reflexivity. Qed.
 
-  Lemma get_refresh_rejar sd : get_refresh nch (rejar a r sd) = get_refresh nch sd.
+  Lemma get_refresh_rejar a r sd : get_refresh nch (rejar a r sd) = get_refresh nch sd.
   Proof. reflexivity. Qed.
 
-  Lemma authenticated_rejar now sd : authenticated now (rejar a r sd) = authenticated now sd.
+  Lemma authenticated_rejar a r now sd : authenticated now (rejar a r sd) = authenticated now sd.
   Proof. reflexivity. Qed.
 
-  Lemma set_main_rejar f s sd : set_main f s (rejar a r sd) = rejar a r (set_main f s sd).
+  Lemma set_main_rejar a r f s sd : set_main f s (rejar a r sd) = rejar a r (set_main f s sd).
   Proof. reflexivity. Qed.
 
-  Lemma set_authenticated_rejar now b sd :
+  Lemma set_authenticated_rejar a r now b sd :
     set_authenticated now b (rejar a r sd) = rejar a r (set_authenticated now b sd).
   Proof. reflexivity. Qed.
 
-  Lemma set_access_rejar t sd : set_access nch t (rejar a r sd) = rejar a r (set_access nch t sd).
+  Lemma set_access_rejar a r t sd : set_access nch t (rejar a r sd) = rejar a r (set_access nch t sd).
   Proof.
     unfold set_access. change (s_acc (rejar a r sd)) with (s_acc sd).
     destruct (store_token nch t (s_acc sd)) as [p ch]. reflexivity.
   Qed.
 
-  Lemma set_refresh_rejar t sd : set_refresh nch t (rejar a r sd) = rejar a r (set_refresh nch t sd).
+  Lemma set_refresh_rejar a r t sd : set_refresh nch t (rejar a r sd) = rejar a r (set_refresh nch t sd).
   Proof.
     unfold set_refresh. change (s_ref (rejar a r sd)) with (s_ref sd).
     destruct (store_token nch t (s_ref sd)) as [p ch]. reflexivity.
   Qed.
 
-  Lemma after_save_rejar sd : after_save (rejar a r sd) = rejar a r (after_save sd).
+  (* Save counts the chunk cookies it has written like the ones of the request: the counts move, each on its side *)
+  Lemma after_save_rejar a r sd :
+    after_save (rejar a r sd)
+    = rejar (Nat.max a (length (s_achunks sd))) (Nat.max r (length (s_rchunks sd))) (after_save sd).
   Proof. reflexivity. Qed.
 
-  Lemma clear_fst_rejar sd : fst (clear (rejar a r sd)) = rejar a r (fst (clear sd)).
+  Lemma clear_fst_rejar a r sd : fst (clear (rejar a r sd)) = rejar a r (fst (clear sd)).
   Proof. reflexivity. Qed.
 
-  Lemma live_save_rejar sd : live_cookies (save_cookies (rejar a r sd)) = live_cookies (save_cookies sd).
+  Lemma live_save_rejar a r sd : live_cookies (save_cookies (rejar a r sd)) = live_cookies (save_cookies sd).
   Proof.
     unfold save_cookies.
     change (s_main (rejar a r sd)) with (s_main sd). change (s_acc (rejar a r sd)) with (s_acc sd).
@@ -184,13 +189,13 @@ Section Rejar.
     rewrite !live_app, !live_deletions. reflexivity.
   Qed.
 
-  Lemma cs_sim_save sd : cs_sim (save_cookies sd) (save_cookies (rejar a r sd)).
+  Lemma cs_sim_save a r sd : cs_sim (save_cookies sd) (save_cookies (rejar a r sd)).
   Proof. split; [symmetry; apply live_save_rejar|apply chunk_dels_save]. Qed.
 
-  Lemma cs_sim_clear sd : cs_sim (snd (clear sd)) (snd (clear (rejar a r sd))).
+  Lemma cs_sim_clear a r sd : cs_sim (snd (clear sd)) (snd (clear (rejar a r sd))).
   Proof.
     rewrite !clear_snd.
-    exact (cs_sim_save (mkSd [] [] [] (empty_payloads (s_achunks sd)) (empty_payloads (s_rchunks sd))
+    exact (cs_sim_save a r (mkSd [] [] [] (empty_payloads (s_achunks sd)) (empty_payloads (s_rchunks sd))
                              (s_jar_a sd) (s_jar_r sd) (s_marked_a sd) (s_marked_r sd) (s_live sd))).
   Qed.
 End Rejar.
@@ -199,7 +204,6 @@ End Rejar.
 
 Section Handlers.
   Variables (E : env) (cfg : config).
-  Variables a r : nat.
 
   Ltac push_rejar :=
     repeat first
@@ -211,7 +215,7 @@ Section Handlers.
     cs_sim cs cs' -> resp_sim (send_error rq m code cs calls) (send_error rq m code cs' calls).
   Proof. intros H. unfold send_error. apply resp_sim_mk. exact H. Qed.
 
-  Lemma initiate_sim rq rnd st sd cs cs' calls :
+  Lemma initiate_sim a r rq rnd st sd cs cs' calls :
     cs_sim cs cs' ->
     resp_sim (initiate cfg rq rnd st sd cs calls) (initiate cfg rq rnd st (rejar a r sd) cs' calls).
   Proof.
@@ -223,7 +227,7 @@ Section Handlers.
     destruct (c_pkce cfg); push_rejar; apply cs_sim_save.
   Qed.
 
-  Lemma process_authorized_sim rq rnd st sd cs cs' calls :
+  Lemma process_authorized_sim a r rq rnd st sd cs cs' calls :
     cs_sim cs cs' ->
     resp_sim (process_authorized E cfg rq rnd st sd cs calls)
              (process_authorized E cfg rq rnd st (rejar a r sd) cs' calls).
@@ -235,7 +239,7 @@ Section Handlers.
     match goal with |- resp_sim (if ?c then _ else _) _ => destruct c end; apply resp_sim_mk; exact H.
   Qed.
 
-  Lemma handle_logout_sim rq st sd :
+  Lemma handle_logout_sim a r rq st sd :
     resp_sim (handle_logout E cfg rq st sd) (handle_logout E cfg rq st (rejar a r sd)).
   Proof.
     unfold handle_logout. push_rejar. pose proof (cs_sim_clear a r sd) as Hc.
@@ -243,7 +247,7 @@ Section Handlers.
     cbn [snd] in Hc. apply resp_sim_mk. exact Hc.
   Qed.
 
-  Lemma handle_expired_sim rq rnd st sd :
+  Lemma handle_expired_sim a r rq rnd st sd :
     resp_sim (handle_expired E cfg rq rnd st sd) (handle_expired E cfg rq rnd st (rejar a r sd)).
   Proof.
     unfold handle_expired. cbv zeta. push_rejar. apply initiate_sim. apply cs_sim_save.
@@ -253,7 +257,7 @@ Section Handlers.
     out_sim (st, send_error rq m code [] calls) (st, send_error rq m code [] calls).
   Proof. apply out_sim_resp. apply send_error_sim. exact cs_sim_nil. Qed.
 
-  Lemma handle_callback_sim rq st now sd ans :
+  Lemma handle_callback_sim a r rq st now sd ans :
     out_sim (handle_callback E cfg rq st now sd ans) (handle_callback E cfg rq st now (rejar a r sd) ans).
   Proof.
     unfold handle_callback. cbv zeta. push_rejar.
@@ -274,27 +278,30 @@ Section Handlers.
     push_rejar. apply out_sim_mk. apply cs_sim_save.
   Qed.
 
-  (* refreshToken on related sessions: same state, calls and verdict, related sessions and cookies *)
-  Lemma refresh_token_sim st now sd ans :
-    exists st1 sd1 cs cs' calls ok,
+  (* refreshToken on related sessions: same state, calls and verdict, related sessions (with the counts its Save
+     leaves on each side) and cookies *)
+  Lemma refresh_token_sim a r st now sd ans :
+    exists st1 sd1 cs cs' calls ok a' r',
       refresh_token E st now sd ans = (st1, sd1, cs, calls, ok)
-      /\ refresh_token E st now (rejar a r sd) ans = (st1, rejar a r sd1, cs', calls, ok)
+      /\ refresh_token E st now (rejar a r sd) ans = (st1, rejar a' r' sd1, cs', calls, ok)
       /\ cs_sim cs cs'.
   Proof.
     unfold refresh_token. cbv zeta. push_rejar.
     assert (Hsame : forall (st1 : inst) (calls : list pcall) (ok : bool),
-              exists st2 sd1 cs cs' calls2 ok2,
+              exists st2 sd1 cs cs' calls2 ok2 a' r',
                 (st1, sd, @nil setcookie, calls, ok) = (st2, sd1, cs, calls2, ok2)
-                /\ (st1, rejar a r sd, @nil setcookie, calls, ok) = (st2, rejar a r sd1, cs', calls2, ok2)
+                /\ (st1, rejar a r sd, @nil setcookie, calls, ok) = (st2, rejar a' r' sd1, cs', calls2, ok2)
                 /\ cs_sim cs cs').
-    { intros st1 calls ok. exists st1, sd, [], [], calls, ok. split; [reflexivity|]. split; [reflexivity|exact cs_sim_nil]. }
-    assert (Hsave : forall (st1 : inst) (sdx : sdata) (calls : list pcall) (ok : bool),
-              exists st2 sd1 cs cs' calls2 ok2,
+    { intros st1 calls ok. exists st1, sd, [], [], calls, ok, a, r.
+      split; [reflexivity|]. split; [reflexivity|exact cs_sim_nil]. }
+    assert (Hsave : forall (st1 : inst) (sdx : sdata) (calls : list pcall) (ok : bool) (a1 r1 : nat),
+              exists st2 sd1 cs cs' calls2 ok2 a' r',
                 (st1, after_save sdx, save_cookies sdx, calls, ok) = (st2, sd1, cs, calls2, ok2)
-                /\ (st1, rejar a r (after_save sdx), save_cookies (rejar a r sdx), calls, ok)
-                   = (st2, rejar a r sd1, cs', calls2, ok2)
+                /\ (st1, rejar a1 r1 (after_save sdx), save_cookies (rejar a r sdx), calls, ok)
+                   = (st2, rejar a' r' sd1, cs', calls2, ok2)
                 /\ cs_sim cs cs').
-    { intros st1 sdx calls ok. exists st1, (after_save sdx), (save_cookies sdx), (save_cookies (rejar a r sdx)), calls, ok.
+    { intros st1 sdx calls ok a1 r1.
+      exists st1, (after_save sdx), (save_cookies sdx), (save_cookies (rejar a r sdx)), calls, ok, a1, r1.
       split; [reflexivity|]. split; [reflexivity|apply cs_sim_save]. }
     destruct (get_refresh (NC E) sd) as [|old|] eqn:Ert; [apply Hsame| |].
     - destruct ans as [[[|]|id newrt]|]; [push_rejar; apply Hsave|apply Hsame| |apply Hsame].
@@ -313,7 +320,7 @@ Section Handlers.
       destruct newrt as [|p]; push_rejar; apply Hsave.
   Qed.
 
-  Lemma is_user_authenticated_rejar now sd :
+  Lemma is_user_authenticated_rejar a r now sd :
     is_user_authenticated E cfg now (rejar a r sd) = is_user_authenticated E cfg now sd.
   Proof. reflexivity. Qed.
 
@@ -346,7 +353,7 @@ Section Handlers.
     serve E cfg st now rq rnd ans = serve_from st now rq rnd ans (load (c_key cfg) now (q_jar rq)).
   Proof. reflexivity. Qed.
 
-  Lemma serve_from_sim st now rq rnd ans sd :
+  Lemma serve_from_sim a r st now rq rnd ans sd :
     out_sim (serve_from st now rq rnd ans sd) (serve_from st now rq rnd ans (rejar a r sd)).
   Proof.
     unfold serve_from.
@@ -360,12 +367,32 @@ Section Handlers.
     destruct (auth && negb refresh); [apply out_sim_resp; apply process_authorized_sim; exact cs_sim_nil|].
     destruct (refresh && negb (tval_eqb (get_refresh (NC E) sd) TEmpty));
       [|apply out_sim_resp; apply initiate_sim; exact cs_sim_nil].
-    destruct (refresh_token_sim st now sd ans) as [st1 [sd1 [cs [cs' [calls [ok [H1 [H2 Hcs]]]]]]]].
+    destruct (refresh_token_sim a r st now sd ans) as [st1 [sd1 [cs [cs' [calls [ok [a' [r' [H1 [H2 Hcs]]]]]]]]]].
     rewrite H1, H2. destruct ok; [apply out_sim_resp; apply process_authorized_sim; exact Hcs|].
     destruct (q_json rq); [apply out_sim_mk; exact Hcs|].
     apply out_sim_resp. apply initiate_sim. exact Hcs.
   Qed.
 End Handlers.
+
+(* the same, for sessions that agree on every field except the jar counts *)
+Definition sd_sim (sd sd' : sdata) : Prop := exists a r, sd' = rejar a r sd.
+
+Lemma sd_sim_fields sd sd' :
+  sd_sim sd sd' <->
+  s_main sd' = s_main sd /\ s_acc sd' = s_acc sd /\ s_ref sd' = s_ref sd /\ s_achunks sd' = s_achunks sd
+  /\ s_rchunks sd' = s_rchunks sd /\ s_marked_a sd' = s_marked_a sd /\ s_marked_r sd' = s_marked_r sd
+  /\ s_live sd' = s_live sd.
+Proof.
+  split.
+  - intros [a [r ->]]. repeat split.
+  - intros H. exists (s_jar_a sd'), (s_jar_r sd'). destruct sd' as [m' ac' rf' ach' rch' ja' jr' ma' mr' l'], sd as [m ac rf ach rch ja jr ma mr l].
+    cbn [s_main s_acc s_ref s_achunks s_rchunks s_jar_a s_jar_r s_marked_a s_marked_r s_live] in H.
+    destruct H as [-> [-> [-> [-> [-> [-> [-> ->]]]]]]]. reflexivity.
+Qed.
+
+Lemma serve_from_sd_sim E cfg st now rq rnd ans sd sd' :
+  sd_sim sd sd' -> out_sim (serve_from E cfg st now rq rnd ans sd) (serve_from E cfg st now rq rnd ans sd').
+Proof. intros [a [r ->]]. apply serve_from_sim. Qed.
 
 (* ================================================================== the ladder *)
 
